@@ -514,9 +514,7 @@ func c06RoleCertStage(t *testing.T, p *c06Prober, cfg c06Config, mat *c06Materia
 				What: "no role certificate of this key type, presented from inside its netblock with its verified chain, obtained signed material: " + lk, Case: lk})
 		}
 	}
-	if thorough {
-		c06RoleRealTLS(servers, certs, rng, res, hit)
-	}
+	c06RoleRealTLS(servers, certs, thorough, res, hit)
 	res.Extra["role_cert_cases"] = len(cases)
 	res.Extra["role_cert_certificates"] = len(certs)
 	res.Extra["role_cert_stage_seconds"] = time.Since(start).Seconds()
@@ -544,10 +542,10 @@ func c06RoleCertStage(t *testing.T, p *c06Prober, cfg c06Config, mat *c06Materia
 	return sb.String(), idx
 }
 
-// thorough tier: the same certificates in real TLS handshakes against a crypto/tls server with the service port's
-// client-CA pool; the identity the handlers log must be the one obtained with the chains leaf.Verify returned, and
-// from a loopback socket (outside every minted block) nothing may be let in
-func c06RoleRealTLS(servers []*c06RoleServer, certs []*c06RoleCert, rng *mrand.Rand, res *verifResult, hit func(verifHit)) {
+// the same certificates (quick tier: RSA and Ed25519 keys; thorough: every key type) in real TLS handshakes against a
+// crypto/tls server with the service port's client-CA pool; the identity the handlers log must be the one obtained
+// with the chains leaf.Verify returned, and from a loopback socket (outside every minted block) nothing may be let in
+func c06RoleRealTLS(servers []*c06RoleServer, certs []*c06RoleCert, thorough bool, res *verifResult, hit func(verifHit)) {
 	for _, s := range servers {
 		st := s.p.env.state
 		srv := httptest.NewUnstartedServer(s.p.handler)
@@ -555,6 +553,9 @@ func c06RoleRealTLS(servers []*c06RoleServer, certs []*c06RoleCert, rng *mrand.R
 		srv.StartTLS()
 		for _, rc := range certs {
 			if rc.srv != s || rc.leaf == nil || len(rc.chains) == 0 || rc.cn != "svc-automation" {
+				continue
+			}
+			if !thorough && rc.key.name != "ed25519" && rc.key.name != "rsa2048" {
 				continue
 			}
 			client := &http.Client{Transport: &http.Transport{DialContext: (&net.Dialer{Timeout: 5 * time.Second}).DialContext, TLSClientConfig: &tls.Config{InsecureSkipVerify: true,
@@ -591,6 +592,10 @@ func c06RoleRealTLS(servers []*c06RoleServer, certs []*c06RoleCert, rng *mrand.R
 					hit(verifHit{Key: fmt.Sprintf("C06:role-cert-outside-its-blocks:%s:%s", rc.key.name, q[2]), Oracle: "an IP-restricted certificate presented in a real TLS handshake from a socket outside its netblock is let in",
 						What: fmt.Sprintf("%s %s with %s from 127.0.0.1: logged user %q status %d", q[0], q[1], rc.describe(), user, status), Case: desc})
 				}
+				if rc.hasExt && err == nil && user != "" && q[2] == "runtimeState.usersHandler" {
+					hit(verifHit{Key: fmt.Sprintf("C06:role-cert-as-plain-keymaster:%s:real-tls", rc.key.name), Oracle: "a certificate that carries the address delegation extension, presented in a real TLS handshake, is let in by a route that takes keymaster certificates but no IP certificates",
+						What: fmt.Sprintf("%s %s with %s from 127.0.0.1: logged user %q status %d", q[0], q[1], rc.describe(), user, status), Case: desc})
+				}
 				if err != nil || status != so.status || user != so.user {
 					hit(verifHit{Key: "C06:real-tls:role-cert:" + rc.key.name, Oracle: "a real TLS handshake and the connection state built from leaf.Verify are treated differently",
 						What: fmt.Sprintf("%s %s with %s: real handshake -> status %d user %q (err %v); VerifiedChains of leaf.Verify from 127.0.0.1 -> status %d user %q", q[0], q[1], rc.describe(), status, user, err, so.status, so.user), Case: desc})
@@ -599,5 +604,4 @@ func c06RoleRealTLS(servers []*c06RoleServer, certs []*c06RoleCert, rng *mrand.R
 		}
 		srv.Close()
 	}
-	_ = rng
 }
